@@ -97,12 +97,14 @@ Fixpoint frag_loop (fuel : nat) (i : Z) (e : list N) (flag : N) (st : wst) : wre
   | O => WFuel
   | S f =>
     let a := alloc st in
-    let l := Z.min (zlen e) (page_size - a - 7) in
+    let n := zlen e in
+    let l := Z.min n (page_size - a - 7) in
     if l <? 0 then WPanic else
     let part := ztake l e in
+    let whole := zlen part =? n in
     let typ :=
-      if (i =? 0) && (zlen part =? zlen e) then recFull
-      else if zlen part =? zlen e then recLast
+      if (i =? 0) && whole then recFull
+      else if whole then recLast
       else if i =? 0 then recFirst else recMiddle in
     let st1 := mkW (w_closed st) (w_writes st) (w_buf st ++ header (N.lor typ flag) part ++ part)
                    (w_flushed st) (w_done st) in
@@ -175,7 +177,8 @@ Definition readfull (n : Z) (s : list N) : rf :=
   if n <=? 0 then RfOk [] s
   else match s with
        | [] => RfEOF
-       | _ => if zlen s <? n then RfUnexpected else RfOk (ztake n s) (zdrop n s)
+       | _ => let d := ztake n s in
+              if zlen d <? n then RfUnexpected else RfOk d (zdrop n s)
        end.
 
 Definition torn (ct : N) : bool := N.eqb ct recFirst || N.eqb ct recMiddle.
